@@ -693,6 +693,9 @@ static json random_schedule(unsigned long seed, long x) {
 					json guess = json::array(); for (unsigned long b = 0; b < kappa; b++) guess.push_back(rnd(2));
 					add({{"op", "CC"}, {"i", who}, {"j", v}, {"s", sid}, {"s2", 200 + sid}, {"cyclic", cyc}, {"kappa", kappa}, {"bits", guess}, {"guess", guess}, {"mode", "guess"}});
 					add({{"op", "CC"}, {"i", who}, {"j", v}, {"s", sid}, {"s2", 200 + sid}, {"cyclic", cyc}, {"kappa", kappa}, {"bits", bits}, {"guess", guess}, {"mode", "guess"}});
+					// the verifier's coins differ from the guessed string in exactly one position (any of the kappa)
+					json near = guess; { size_t fp = rnd(kappa); near[fp] = 1 - near[fp].get<int>(); }
+					add({{"op", "CC"}, {"i", who}, {"j", v}, {"s", sid}, {"s2", 200 + sid}, {"cyclic", cyc}, {"kappa", kappa}, {"bits", near}, {"guess", guess}, {"mode", "guess"}});
 				}
 			}
 			sid++;
